@@ -99,6 +99,8 @@ def check(run):
     run.rules.append("every operator (Montgomery evaluator `op`, integer evaluator `opu`) on the boundary grid {0,1,2,2^k-1,2^k,2^k+1,(p-1)/2-1,(p-1)/2,(p+1)/2,(p+1)/2+1,p-2,p-1}^2 (k over the tier's set; quick: all 49 pairs of the 7 extreme values plus a seeded slice), random operands, every shift count class; distinct = distinct (operator, operands) line")
     # chunks: a crash of the harness process would lose the rest of a chunk
     seqs = [[l] for l in lines]
+    from lib import gen as _gen
+    seqs = seqs + _gen.neighbours(seqs, run.rng, 200 if run.tier == "quick" else 2000)      # purity across calls: L, near-duplicate of L, L again
     run.differential("graph-ops", seqs, classify=classify, shrink=False)
 
     run.confirm_witnesses()
